@@ -56,9 +56,9 @@ type World struct {
 	// BackendWindow > 0: the gateway's writes to a remote desktop host block once that many bytes are unread (a
 	// host that stopped reading)
 	BackendWindow int
-	// InPreload: the first bytes of a legacy client's inbound body (the preamble) arrive in the same segment as the
-	// RDG_IN_DATA request head: net/http has read them already when the handler hijacks the connection
-	InPreload bool
+	// InPreload: the first bytes of a legacy client's inbound body (its first chunk) arrive in the same segment as
+	// the RDG_IN_DATA request head: net/http has read them already when the handler hijacks the connection
+	InPreload []byte
 	// Flags: named events the client scripts of a scenario signal to and wait for (wait:<name> / signal:<name>)
 	Flags map[string]bool
 	// Parties / Arrived: the "barrier" script op waits until the scripts of all tunnels of the scenario reached it
@@ -272,8 +272,8 @@ func (w *World) Serve(name string, h http.Handler, method string, hdr http.Heade
 		r = identity.AddToRequestCtx(id, r)
 	}
 	rw := &fakeRW{conn: srv, hdr: http.Header{}}
-	if w.InPreload && method == "RDG_IN_DATA" {
-		rw.preload = []byte("preamble")
+	if w.InPreload != nil && method == "RDG_IN_DATA" {
+		rw.preload = w.InPreload
 	}
 	hr := &HandlerRun{Name: name, Client: cl, Srv: srv, RW: rw}
 	w.Handlers = append(w.Handlers, hr)
@@ -563,9 +563,6 @@ func (w *World) OpenTunnel(kind string, h http.Handler, gw *protocol.Gateway, co
 		ic := &TunnelClient{Kind: "legacy", Conn: in.Client}
 		if !ic.ReadHTTPHead() || !strings.HasPrefix(ic.HTTPHead, "HTTP/1.1 200") {
 			return c, false
-		}
-		if w.InPreload {
-			return c, true
 		}
 		if extra.Get("X-Verif-No-Preamble") != "" {
 			// the caller ends the tunnel before the first byte on the inbound channel
